@@ -35,6 +35,24 @@ use crate::{
 
 thread_local! { static UDP: Rc<UDPSender> = Rc::new(UDPSender::new(0).expect("UDPSender")); }
 
+#[cfg(feature = "security")]
+pub(crate) use crate::security::security_plugins::SecurityPluginsHandle;
+#[cfg(not(feature = "security"))]
+pub(crate) use crate::no_security::SecurityPluginsHandle;
+
+thread_local! { static SEC: std::cell::RefCell<Option<SecurityPluginsHandle>> = std::cell::RefCell::new(None); }
+
+/// Objects constructed inside `f` get these security plug-ins (None outside).
+pub(crate) fn with_security<T>(h: Option<SecurityPluginsHandle>, f: impl FnOnce() -> T) -> T {
+  let old = SEC.with(|s| s.replace(h));
+  let r = f();
+  SEC.with(|s| s.replace(old));
+  r
+}
+fn sec() -> Option<SecurityPluginsHandle> {
+  SEC.with(|s| s.borrow().clone())
+}
+
 /// One `UDPSender` per thread, shared by all simulators of that thread. It
 /// never sends: the network seam intercepts first.
 pub fn udp() -> Rc<UDPSender> {
@@ -82,7 +100,7 @@ pub fn reader_ingredients(
     data_reader_command_receiver: command_rx,
     data_reader_waker: waker.clone(),
     poll_event_sender,
-    security_plugins: None,
+    security_plugins: sec(),
   };
   (ing, notification_rx, status_rx, command_tx, waker, event_source)
 }
@@ -137,7 +155,7 @@ pub fn mk_writer(guid: GUID, topic: &str, qos: &QosPolicies, queue: usize) -> Wr
     like_stateless: false,
     qos_policies: qos.clone(),
     status_sender: ws_tx,
-    security_plugins: None,
+    security_plugins: sec(),
   };
   let writer = Writer::new(
     wi,
@@ -164,7 +182,7 @@ pub struct ReceiverKit {
 pub fn mk_receiver(own_prefix: GuidPrefix) -> ReceiverKit {
   let (acknack_tx, acknack_rx) = mio_channel::sync_channel(256);
   let (spdp_tx, spdp_rx) = mio_channel::sync_channel(8);
-  let mr = MessageReceiver::new(own_prefix, acknack_tx, spdp_tx, None);
+  let mr = MessageReceiver::new(own_prefix, acknack_tx, spdp_tx, sec());
   ReceiverKit {
     mr,
     acknack_rx,
